@@ -76,6 +76,20 @@ impl TcpConn {
         }
         out
     }
+    /// send bytes without waiting for anything
+    pub fn send_raw(&mut self, bytes: &[u8]) -> bool {
+        self.stream.write_all(bytes).is_ok()
+    }
+    /// abort the connection: SO_LINGER 0 makes close() send a reset instead of an orderly FIN
+    pub fn reset(self) {
+        use std::os::unix::io::AsRawFd;
+        let fd = self.stream.as_raw_fd();
+        let l = libc::linger { l_onoff: 1, l_linger: 0 };
+        unsafe {
+            libc::setsockopt(fd, libc::SOL_SOCKET, libc::SO_LINGER, &l as *const _ as *const libc::c_void, std::mem::size_of::<libc::linger>() as libc::socklen_t);
+        }
+        drop(self);
+    }
     /// close our side and wait until the server has run its end-of-connection path (it drops the
     /// stream afterwards, which we see as EOF)
     pub fn close_and_wait(mut self) -> bool {
